@@ -482,3 +482,85 @@ Proof.
   - intros k a a1 w0 st Hh Hf Ha. apply (bhole_sound k a a1 w0 st Hh Hf Ha).
   - subst st'. exact R.
 Qed.
+
+(* ---------------------------------------------------------------- blocks *)
+Lemma gstate_eqb_eq a b : gstate_eqb a b = true -> a = b.
+Proof.
+  destruct a as [[l1 d1] [a1 c1]], b as [[l2 d2] [a2 c2]]. cbn [gstate_eqb].
+  intro H. apply andb_true_iff in H as [H Hc]. apply andb_true_iff in H as [H Ha]. apply andb_true_iff in H as [Hl Hd].
+  apply dstate_eqb_eq in Hl. apply Nat.eqb_eq in Hd. apply Bool.eqb_prop in Ha, Hc. congruence.
+Qed.
+
+Lemma gstep_plain_out d a c : plain_char c = true -> gstep (DOut, d, (a, false)) c = Some (DOut, d, (a, false)).
+Proof.
+  intro Hc.
+  assert (H34 := plain_not 34 eq_refl c Hc). assert (H60 := plain_not 60 eq_refl c Hc).
+  assert (H47 := plain_not 47 eq_refl c Hc). assert (H35 := plain_not 35 eq_refl c Hc).
+  assert (H123 := plain_not 123 eq_refl c Hc). assert (H125 := plain_not 125 eq_refl c Hc).
+  assert (H91 := plain_not 91 eq_refl c Hc). assert (H93 := plain_not 93 eq_refl c Hc).
+  cbn [gstep]. unfold c_quote. rewrite H34, H60, H47, H35, H123, H125, H91, H93. reflexivity.
+Qed.
+
+Lemma gstep_plain_in d ac c : plain_char c = true -> gstep (DIn, d, ac) c = Some (DIn, d, ac).
+Proof.
+  intro Hc. destruct ac as [a cl]. cbn [gstep]. rewrite (dstep_plain DIn c) by auto. reflexivity.
+Qed.
+
+Lemma gstep_plain_html n d ac c : plain_char c = true -> gstep (DHtml n, d, ac) c = Some (DHtml n, d, ac).
+Proof.
+  intro Hc. destruct ac as [a cl]. cbn [gstep]. rewrite (dstep_plain (DHtml n) c) by eauto. reflexivity.
+Qed.
+
+Lemma qrun_grun (u : list N) d ac : forall e e', qrun e u = Some e' -> grun (dst e, d, ac) u = Some (dst e', d, ac).
+Proof.
+  destruct ac as [a cl].
+  induction u as [|c u IH]; intros e e' H.
+  - cbn in H. inversion H; subst. reflexivity.
+  - cbn [qrun] in H. unfold grun. cbn [run].
+    destruct e; cbn [qstep] in H; cbn [dst gstep dstep].
+    + apply (IH false e' H).
+    + destruct (N.eqb c c_quote); [discriminate|].
+      destruct (N.eqb c c_bslash); apply (IH _ e' H).
+Qed.
+
+Lemma grun_html n d ac w :
+  forallb (fun c => negb (N.eqb c 60) && negb (N.eqb c 62)) w = true -> grun (DHtml n, d, ac) w = Some (DHtml n, d, ac).
+Proof.
+  destruct ac as [a cl].
+  induction w as [|c w IH]; intro H; [reflexivity|].
+  cbn [forallb] in H. apply andb_true_iff in H as [Hc Hw]. apply andb_true_iff in Hc as [H1 H2].
+  unfold grun. cbn [run gstep dstep]. apply negb_true_iff in H1, H2. rewrite H1, H2. apply IH, Hw.
+Qed.
+
+Lemma ghole_sound k a a' w st :
+  ghole k a = Some a' -> fills k w -> a = st -> exists st', run gstep st w = Some st' /\ a' = st'.
+Proof.
+  intros Hh Hf <-. destruct a as [[lx d] [at_ cl]].
+  destruct k; cbn [ghole] in Hh.
+  1-3: (assert (Hp : forallb plain_char w = true) by (eapply plain_of_kind; [|exact Hf]; auto);
+        destruct lx as [| | |n]; try discriminate;
+        [ destruct cl; [discriminate|]; inversion Hh; subst; eexists; split; [apply run_plain; [intros c Hc; apply gstep_plain_out, Hc | exact Hp] | reflexivity]
+        | inversion Hh; subst; eexists; split; [apply run_plain; [intros c Hc; apply gstep_plain_in, Hc | exact Hp] | reflexivity]
+        | inversion Hh; subst; eexists; split; [apply run_plain; [intros c Hc; apply gstep_plain_html, Hc | exact Hp] | reflexivity] ]).
+  - destruct lx; try discriminate. inversion Hh; subst. destruct Hf as [s ->].
+    eexists. split; [apply (qrun_grun (dot_escape s) d (at_, cl) false false (dot_escape_qrun s)) | reflexivity].
+  - destruct lx; try discriminate. inversion Hh; subst. destruct Hf as [[s ->]|Hp].
+    + eexists. split; [apply (qrun_grun (dot_repr_str s) d (at_, cl) false false (dot_repr_qrun s)) | reflexivity].
+    + eexists. split; [apply run_plain; [intros c Hc; apply gstep_plain_in, Hc | exact Hp] | reflexivity].
+  - destruct lx as [| | |n]; try discriminate. inversion Hh; subst.
+    eexists. split; [apply (grun_html n d (at_, cl) w Hf) | reflexivity].
+  - destruct lx; discriminate.
+Qed.
+
+Theorem doc_blocks_sound t :
+  doc_blocks_ok t = true -> forall w, gen t w -> grun g_start w = Some g_final.
+Proof.
+  unfold doc_blocks_ok. intros H w Hg.
+  destruct (tx_run gstate_eqb gstep ghole t g_start) as [a'|] eqn:E; [|discriminate].
+  apply gstate_eqb_eq in H. subst a'.
+  destruct (tx_run_sound (fun a st => a = st) gstate_eqb gstep gstep ghole gstate_eqb_eq) with (t := t) (w := w) (a := g_start) (a' := g_final) (st := g_start)
+    as [st' [R G]]; try assumption; try reflexivity.
+  - intros a a1 c st Hs <-. exists a1. split; [exact Hs | reflexivity].
+  - intros k a a1 w0 st Hh Hf Ha. apply (ghole_sound k a a1 w0 st Hh Hf Ha).
+  - subst st'. exact R.
+Qed.
